@@ -446,7 +446,7 @@ func Select(hasDefault bool, cases ...Case) int {
 		}
 		if len(rdy) > 0 {
 			pick := 0
-			if len(rdy) > 1 {
+			if len(rdy) > 1 && s.quiet == 0 {
 				names := make([]uint64, len(rdy))
 				for k, ri := range rdy {
 					names[k] = uint64(ri) + 1
